@@ -105,3 +105,17 @@ Definition enum_ok (cores non_cores : list segment) (src dst : N) (out : list op
     && list_eqb if_eqb (comb_key us) (hops_key p) && list_eqb if_eqb (lab_path true us) (o_ifs p) in
   (if src =? dst then match out with [] => true | _ => false end
    else forallb (fun us => existsb (same us) out) combs && forallb (fun p => existsb (fun us => same us p) combs) out).
+
+(** ** "de-duplication keeps the latest expiry", evaluated on a result list: the expiry of every
+    returned path is the maximum, over all usable enumerated combinations with the same route
+    (same hop-field interface sequence), of the combination's earliest hop expiry *)
+Definition comb_expiry (us : list seguse) : N :=
+  minl 4294967295 (flat_map (fun u => map (fun h => hop_expiry (sg_ts (u_seg u)) (hf_exp h)) (use_hops u)) us).
+Definition expiry_max_ok (cores non_cores : list segment) (src dst : N) (out : list opath) : bool :=
+  let combs := filter comb_usable (combinations cores non_cores src dst) in
+  forallb (fun p =>
+    let same := filter (fun us => list_eqb if_eqb (comb_key us) (hops_key p)) combs in
+    match same with
+    | [] => false
+    | _ => o_exp p =? fold_right N.max 0 (map comb_expiry same)
+    end) out.
